@@ -1,4 +1,5 @@
 import Cirbo.Proofs.Passes
+import Cirbo.Proofs.PassPipe
 /-!
 # C03 — Simplification passes preserve the function, the interface and their argument
 
@@ -6,7 +7,12 @@ import Cirbo.Proofs.Passes
 -- OBLIGATION: c03_rrg_same_function
 -- OBLIGATION: c03_rrg_keeps_inputs
 -- OBLIGATION: c03_pipeline_of_rrg_preserves
--- PARTIAL: proved for RemoveRedundantGates (both modes) and for every pipeline made of it. MergeUnaryOperators, MergeDuplicateGates, MergeEquivalentGates and the pipelines containing them (cleanup light/heavy) are modelled one-to-one (Model/Passes.lean) and compared with the code field by field on every run, and the search compares the truth tables, interfaces and sizes of argument and result of the real passes; their preservation theorems are not proved yet. "The argument is not modified" is decided by the correspondence harness (Lean values are immutable, so the model cannot exhibit aliasing).
+-- OBLIGATION: c03_muo_preserves
+-- OBLIGATION: c03_mdg_preserves
+-- OBLIGATION: c03_pipelines_preserve
+-- OBLIGATION: c03_cleanup_light_preserves
+-- OBLIGATION: c03_same_function
+-- PARTIAL: proved for RemoveRedundantGates (both modes), MergeUnaryOperators, MergeDuplicateGates, every pipeline / pipe-operator composition / apply_transformers list over them, and cleanup (light). MergeEquivalentGates (truth-table groups) and therefore cleanup(use_heavy=True) are modelled one-to-one (Model/Passes.lean), compared with the code field by field on every run and checked by the truth-table oracle; their preservation theorem is not proved yet. "The argument is not modified" is decided by the correspondence harness (Lean values are immutable). "Never more gates" is proved for RRG; MUO/MDG keep the gate count and rely on the implied RRG.
 -/
 namespace Cirbo
 
@@ -57,6 +63,34 @@ theorem c03_pipeline_of_rrg_preserves : ∀ (ts : List Tr) {c c' : Circuit}, WFS
       obtain ⟨w2, s2, o2, v2⟩ := ih w1 (fun t ht => hts t (by simp [ht])) h'
       exact ⟨w2, fun g hg => s1 g (s2 g hg), o2.trans o1, fun b v hv => v2 b v (v1 b v hv)⟩
 
+/-- **MergeUnaryOperators**: invariant kept, same inputs, same number of outputs, every valuation of
+the argument is a valuation of the result and gives every output position the same value -/
+theorem c03_muo_preserves {c c' : Circuit} (hw : WFS c) (h : muo c = .ok c') : Preserves c c' := muo_preserves hw h
+
+/-- **MergeDuplicateGates** -/
+theorem c03_mdg_preserves {c c' : Circuit} (hw : WFS c) (h : mdg c = .ok c') : Preserves c c' := mdg_preserves hw h
+
+/-- **any composition** (`Transformer.transform`, `t1 | t2`, `apply_transformers` on a list) of passes
+with proved theorems -/
+theorem c03_pipelines_preserve (ts : List Tr) {c c' : Circuit} (hw : WFS c)
+    (hts : ∀ t ∈ linearize.linearizeList ts, Proved t) (h : applyTransformers c ts = .ok c') : Preserves c c' :=
+  applyTransformers_preserves ts hw hts h
+
+/-- **`cleanup(circuit)`** (light) -/
+theorem c03_cleanup_light_preserves {c c' : Circuit} (hw : WFS c) (h : cleanup c false = .ok c') : Preserves c c' :=
+  cleanup_light_preserves hw h
+
+/-- `Preserves` gives the identical truth table: under any input assignment, the valuation of the
+result gives each output position the value the valuation of the argument gives it -/
+theorem c03_same_function {c c' : Circuit} (hp : Preserves c c') (b v v' : Label → Bool)
+    (hv : IsValB c b v) (hv' : IsValB c' b v') : c'.outputs.map v' = c.outputs.map v := by
+  obtain ⟨h1, h2⟩ := hp.val b v hv
+  rw [← h2]
+  apply List.map_congr_left
+  intro o ho
+  obtain ⟨g, hg, rfl⟩ := List.mem_map.mp (hp.wfs.outputsOK o ho)
+  exact valB_unique_cr hp.wfs.closed hp.wfs.rank hv' h1 g hg
+
 /-! Non-vacuity: dead logic and an unused input are removed, the function is kept -/
 open GateType in
 def c03Example : R Circuit := runOps Circuit.empty
@@ -69,5 +103,10 @@ example : ((c03Example >>= rrg true).toOption.map fun c => (c.inputs, c.outputs,
 #print axioms c03_rrg_same_function
 #print axioms c03_rrg_keeps_inputs
 #print axioms c03_pipeline_of_rrg_preserves
+#print axioms c03_muo_preserves
+#print axioms c03_mdg_preserves
+#print axioms c03_pipelines_preserve
+#print axioms c03_cleanup_light_preserves
+#print axioms c03_same_function
 
 end Cirbo
